@@ -457,6 +457,23 @@ func c02Sequences(a *ChildArgs) {
 		"not-and-casts-300":   "SELECT a FROM t WHERE " + strings.Repeat("NOT a = 1 AND CAST(b AS INT) = -1 AND ", 100) + "c = 1",
 		"insert-signed-rows":  "INSERT INTO t (a) VALUES " + strings.Repeat("(-1), ", 300) + "(0)",
 		"calls-and-cases-200": "SELECT " + strings.Repeat("f(-a), CASE WHEN x THEN -1 ELSE +1 END, ", 100) + "0 FROM t",
+		// eighth round: every predicate and operand form that has a branch of its own in the expression parser, 300 times side
+		// by side (a branch that gives back a level it never took, or keeps one, moves the limit by 300)
+		"not-exists-300":      "SELECT a FROM t WHERE " + strings.Repeat("NOT EXISTS (SELECT 1 FROM u) AND ", 300) + "c = 1",
+		"exists-300":          "SELECT a FROM t WHERE " + strings.Repeat("EXISTS (SELECT 1 FROM u) AND ", 300) + "c = 1",
+		"in-subqueries-300":   "SELECT a FROM t WHERE " + strings.Repeat("a IN (SELECT 1) AND b NOT IN (SELECT 2) AND ", 150) + "c = 1",
+		"in-lists-300":        "SELECT a FROM t WHERE " + strings.Repeat("a IN (1, 2) AND b NOT IN (-1, 3) AND ", 150) + "c = 1",
+		"between-like-300":    "SELECT a FROM t WHERE " + strings.Repeat("a BETWEEN 1 AND 2 AND b NOT BETWEEN -1 AND 3 AND c LIKE 'x' AND d NOT LIKE 'y' AND ", 75) + "c = 1",
+		"is-null-300":         "SELECT a FROM t WHERE " + strings.Repeat("a IS NULL AND b IS NOT NULL AND NOT c IS NULL AND ", 100) + "c = 1",
+		"any-all-300":         "SELECT a FROM t WHERE " + strings.Repeat("a = ANY (SELECT 1) AND b > ALL (SELECT 2) AND ", 150) + "c = 1",
+		"scalar-subqueries-300": "SELECT " + strings.Repeat("(SELECT 1), ", 300) + "0 FROM t",
+		"casts-and-subscripts": "SELECT " + strings.Repeat("a::int, b[1], CAST(c AS TEXT), ARRAY[1, 2], (1, 2), ", 60) + "0 FROM t",
+		"windows-and-filters":  "SELECT " + strings.Repeat("SUM(a) OVER (PARTITION BY b ORDER BY c), COUNT(*) FILTER (WHERE d > 0), ", 100) + "0 FROM t",
+		"interval-300":         "SELECT " + strings.Repeat("INTERVAL '1 day', CURRENT_DATE, ", 150) + "0 FROM t",
+		"not-parenthesised-300": "SELECT a FROM t WHERE " + strings.Repeat("NOT (a = 1) AND NOT (NOT b) AND ", 150) + "c = 1",
+		"derived-and-joins":    "SELECT a FROM t " + strings.Repeat("JOIN (SELECT 1 AS x) s ON s.x = t.a AND NOT EXISTS (SELECT 1) ", 150) + "WHERE c = 1",
+		"match-against-200":    "SELECT a FROM t WHERE " + strings.Repeat("MATCH (a) AGAINST ('x' IN BOOLEAN MODE) AND ", 200) + "c = 1",
+		"json-and-concat-300":  "SELECT " + strings.Repeat("a -> 'k', b ->> 'k', c || 'x', ", 100) + "0 FROM t",
 	}
 	for pn, pre := range preludes {
 		for sn, sc := range second {
